@@ -97,7 +97,7 @@ func loadCggmpPool() *cggmpPoolT {
 	var wg sync.WaitGroup
 	fail := func(err error) {
 		mu.Lock()
-		p.err = errStr(err)
+		p.err = errChain(err)
 		mu.Unlock()
 	}
 	for _, id := range cggmpPoolID {
